@@ -22,14 +22,15 @@ ASSUMPTIONS = [
     'CPython 3.12.1 only',
 ]
 BOUND = {
-    'quick': 'all DAGs n<=3 x kinds x all 2^n hook subsets x every single outcome x repeat{1,2}; all DAGs n<=2 x kinds x hook subsets x all outcome sequences of length 2 x repeat{1,2}',
-    'thorough': 'quick + length-3 sequences for n<=2, length-2 for n=3, one-sided hook sets (testSetUp only / testTearDown only), and -j2 children',
+    'quick': 'all multiple-inheritance DAGs n=4 x 24 namings; all DAGs n<=3 x kinds x all 2^n hook subsets x every single outcome x repeat{1,2}; all DAGs n<=2 x kinds x hook subsets x all outcome sequences of length 2 x repeat{1,2}',
+    'thorough': 'quick + all multiple-inheritance DAGs n=5 x 120 namings + length-3 sequences for n<=2, length-2 for n=3, one-sided hook sets (testSetUp only / testTearDown only), and -j2 children',
 }
 CHUNK = 128
 
 KINDS = ['pass', 'fail', 'error', 'skip_dec', 'skip_cls', 'skip_setup',
          'skip_body', 'xfail', 'uxs', 'sub:1,0,1', 'sub:1,1,0', 'setup_err',
-         'teardown_err', 'body+teardown', 'cleanup_err', 'sysexit']
+         'teardown_err', 'body+teardown', 'cleanup_err', 'sysexit',
+         'sub_skip', 'redir_sub_fail', 'swap_fail']
 
 
 def _graphs(nmax):
@@ -55,6 +56,18 @@ def cases(tier, seed):
                             if ln < L or nmax == 3:
                                 done.add(key)
                             yield [n, g, kind, hm, 'both', list(seq), rep, '']
+    # hook ORDER over larger graphs: every DAG with ordered bases on 4 (thorough:
+    # 5) layers under every naming of the nodes (the runner orders layers by
+    # name), all layers hook-bearing, one passing test per layer
+    nbig = 4 if tier == 'quick' else 5
+    for nn in range(4, nbig + 1):
+        for g in worlds.dags(nn):
+            if max(len(b) for b in g) < 2:
+                continue              # chains and trees are covered above
+            kk = ['i'] + (['c'] if worlds.c3_ok(g) else [])
+            for perm in itertools.permutations(range(nn)):
+                for kind in kk:
+                    yield [nn, g, kind, (1 << nn) - 1, 'both', ['pass'], 1, '', list(perm)]
     if tier == 'thorough':
         for n, g, kind in _graphs(3):
             for hm in range(1, 1 << n):
@@ -68,8 +81,8 @@ def cases(tier, seed):
 
 
 def build_spec(case):
-    n, g, kind, hm, side, seq, rep, mode = case
-    names = worlds.names_for(n, 'fwd')
+    n, g, kind, hm, side, seq, rep, mode = case[:8]
+    names = worlds.names_for(n, case[8] if len(case) > 8 else 'fwd')
     hooks = []
     for i in range(n):
         h = list(worlds.HOOKS_SD)
@@ -98,7 +111,7 @@ def setup_worker():
 
 
 def run_case(case):
-    n, g, kind, hm, side, seq, rep, mode = case
+    n, g, kind, hm, side, seq, rep, mode = case[:8]
     spec, argv = build_spec(case)
     res = runrt.run_world(spec, argv)
     sv = monitors.SpecView(spec)
